@@ -316,6 +316,8 @@ def o203(ctx):
 
     proles = [role(e) for e in prod[0].args[0].elts] if len(prod) == 1 else None
     ctx.count(1, {"consumer tuple": names, "producer tuple": [src(e) for e in prod[0].args[0].elts] if prod else None, "producer roles": proles})
+    if proles is None or "?" in proles:
+        raise Unsupported(f"roles of the producer's tuple elements not recognised ({[src(e) for e in prod[0].args[0].elts] if prod else None})", fc)
     if len(names) != 3 or proles != ["distance", "source", "target"]:
         ctx.finding(q, lp, "producer and consumer must agree on the tuple layout (distance, source index, target index): the distance must "
                     "come first so that sorting orders by distance", lp, m, producer_roles=proles)
@@ -325,14 +327,27 @@ def o203(ctx):
         raise Unsupported("acceptance test of the greedy loop not recognised", lp)
     test = ifs[0].test
     body = ifs[0].body
-    # taken-tests and markers
-    conj = test.values if isinstance(test, ast.BoolOp) and isinstance(test.op, ast.And) else [test]
+    # taken-tests and markers.  Two spellings of the same test: `if free(s) and free(t): <assign>` and the guard clause
+    # `if taken(s) or taken(t): continue` followed by <assign>
+    guard_clause = len(ifs[0].body) == 1 and isinstance(ifs[0].body[0], ast.Continue) and not ifs[0].orelse
     checks = {}
-    for c in conj:
-        if isinstance(c, ast.Compare) and isinstance(c.ops[0], ast.NotIn) and isinstance(c.left, ast.Name):
-            checks[c.left.id] = ("set", src(c.comparators[0]))
-        elif isinstance(c, ast.UnaryOp) and isinstance(c.op, ast.Not) and isinstance(c.operand, ast.Subscript) and isinstance(c.operand.slice, ast.Name):
-            checks[c.operand.slice.id] = ("flag", src(c.operand.value))
+    if guard_clause:
+        body = lp.body[lp.body.index(ifs[0]) + 1:]
+        parts = test.values if isinstance(test, ast.BoolOp) and isinstance(test.op, ast.Or) else [test]
+        for c in parts:
+            if isinstance(c, ast.Compare) and len(c.ops) == 1 and isinstance(c.ops[0], ast.In) and isinstance(c.left, ast.Name):
+                checks[c.left.id] = ("set", src(c.comparators[0]))
+            elif isinstance(c, ast.Subscript) and isinstance(c.slice, ast.Name):
+                checks[c.slice.id] = ("flag", src(c.value))
+            else:
+                raise Unsupported(f"taken-test {src(c)!r} not recognised", c)
+    else:
+        conj = test.values if isinstance(test, ast.BoolOp) and isinstance(test.op, ast.And) else [test]
+        for c in conj:
+            if isinstance(c, ast.Compare) and isinstance(c.ops[0], ast.NotIn) and isinstance(c.left, ast.Name):
+                checks[c.left.id] = ("set", src(c.comparators[0]))
+            elif isinstance(c, ast.UnaryOp) and isinstance(c.op, ast.Not) and isinstance(c.operand, ast.Subscript) and isinstance(c.operand.slice, ast.Name):
+                checks[c.operand.slice.id] = ("flag", src(c.operand.value))
     ctx.count(1, {"acceptance test": src(test), "taken tests": checks})
     if set(checks) != {s_name, t_name}:
         ctx.finding(q, test, "a pair may be accepted only if neither the source nor the target is already assigned", test, m)
@@ -356,14 +371,18 @@ def o203(ctx):
     # thickness = dist * voxel_size
     st = [s for s in body if isinstance(s, ast.Assign) and src(s.targets[0]).endswith(f"[{s_name}]") and isinstance(s.value, ast.Name) and s.value.id == d_name]
     after = fn.body[fn.body.index(lp) + 1:]
-    scale = [s for s in after if isinstance(s, ast.Assign) and st and src(s.targets[0]) == src(st[0].targets[0]).split("[")[0]]
-    ctx.count(1, {"thickness": [src(s) for s in st + scale]})
+    scale = [s.value for s in after if isinstance(s, ast.Assign) and st and src(s.targets[0]) == src(st[0].targets[0]).split("[")[0]]
+    if not scale and st:
+        # scaled in the return expression itself: the first returned element
+        rets = [s for s in after if isinstance(s, ast.Return) and isinstance(s.value, ast.Tuple) and s.value.elts]
+        scale = [r_.value.elts[0] for r_ in rets if not isinstance(r_.value.elts[0], ast.Name)]
+    ctx.count(1, {"thickness": [src(s) for s in st] + [src(s) for s in scale]})
     ok = bool(st) and bool(scale)
     if ok:
         it = Interp(ctx.prog)
         from sa.interp import Frame_
         arr = src(st[0].targets[0]).split("[")[0]
-        v = it.eval(scale[0].value, Frame_(q, m, {arr: P("d"), "voxel_size": P("voxel_size")}))
+        v = it.eval(scale[0], Frame_(q, m, {arr: P("d"), "voxel_size": P("voxel_size")}))
         ok = bool(tm.equivalent(to_term(v), mk("mul", sym("d"), sym("voxel_size")), samplers={"voxel_size": pos_sampler(0.3, 3)}, seed_tag="thick"))
     if not ok:
         ctx.finding(q, fn, "a pair's thickness must be its distance (voxels) multiplied by the voxel size", fn, m)
